@@ -671,9 +671,15 @@ Proof.
         -- destruct rest; side Ek.
         -- destruct rest; side Ek.
         -- destruct rest; side Ek.
+  - (* PCount *) inv_some E. unfold set_pc. apply good_local_same; auto; try apply (gp_todo _ _ HP);
+      destruct (subset _ _); side Ek.
   - (* PRead *) destruct (subset _ _); inv_some E.
-    + apply good_local_same; auto; try (intros x []); side Ek.
+    + apply good_local_same; auto; try (intros x []); side Ek; try apply incl_nil_l.
     + unfold set_pc. apply good_local_same; auto; try apply (gp_todo _ _ HP); side Ek.
+  - (* PRead2 *) inv_some E. unfold set_pc. apply good_local_same; auto; try apply (gp_todo _ _ HP);
+      destruct (subset _ _); side Ek.
+  - (* PRead3 *) inv_some E. unfold set_pc. apply good_local_same; auto; try apply (gp_todo _ _ HP);
+      destruct (subset _ _); side Ek.
   - (* PReload *) inv_some E. apply good_reload; auto. rewrite Ek; reflexivity.
   - discriminate.
   - discriminate.
@@ -786,7 +792,7 @@ Definition is_done (k : pcT) : bool := match k with PDone => true | _ => false e
 Definition witness_base : list (list nat) := [[0;1;2;3;4;5;6;7]; [8]].
 Definition witness_roles : list role := [RPack; RPack; RCommit [10]].
 Definition witness_sched : list nat :=
-  [1;1;1;1] ++ repeat 0 12 ++ repeat 2 20 ++ repeat 1 10.
+  [1;1;1;1;1] ++ repeat 0 14 ++ repeat 2 20 ++ repeat 1 10.
 Definition witness_final : sys := run step witness_sched (init_sys witness_base witness_roles).
 Definition witness_pack : pname := PN [0;1;2;3;4;5;6;7;8] true.
 
@@ -834,7 +840,7 @@ Proof. vm_compute. reflexivity. Qed.
 
 (* the hypotheses of the guarded theorem are satisfiable by a non-trivial run *)
 Example guarded_nontrivial :
-  let st := run step ([0;0;0;0] ++ repeat 1 12 ++ repeat 0 14) (init_sys witness_base [RCommit [10]; RPack]) in
+  let st := run step ([0;0;0;0] ++ repeat 1 14 ++ repeat 0 14) (init_sys witness_base [RCommit [10]; RPack]) in
   collided (sh st) = false /\ pc (procs st 0) = PDone /\ pc (procs st 1) = PDone /\
   reloads (procs st 0) = 1 /\ committed (sh st) = [0;1;2;3;4;5;6;7;8;10] /\
   map revs (disk (sh st)) = [[0;1;2;3;4;5;6;7;8;10]].
@@ -849,7 +855,7 @@ Fixpoint afteradd (k : pcT) : bool :=
 Fixpoint saved (k : pcT) : bool :=
   match k with PClear | PUnlock | PObs | PObsMore | PDone => true | PReload k' => saved k' | _ => false end.
 Fixpoint noread (k : pcT) : bool :=
-  match k with PRead => false | PReload k' => noread k' | _ => true end.
+  match k with PCount | PRead | PRead2 | PRead3 => false | PReload k' => noread k' | _ => true end.
 
 Definition Link (st : sys) : Prop :=
   forall q rs, prole (procs st q) = RCommit rs ->
